@@ -196,9 +196,6 @@ func TestBS4Sparse(t *testing.T) {
 			}
 			checks++
 			for _, b := range buckets {
-				if len(ms[b]) == 0 && b != bucket {
-					continue // a bucket never written: GetAll in sparse mode creates its meta file (recorded weakness, C09)
-				}
 				if !bs4Check(t, db, b, ms[b], what) {
 					passed = false
 				}
